@@ -69,16 +69,33 @@ def run(prop, tier="quick", seed=0, replay=None, keep=False):
     deadline = time.time() + shard_timeout
     # a case that is stuck inside compiled code cannot be interrupted by the child's own alarm:
     # the parent watches the per-case progress file and stops a shard whose current case is older than stuck_s
+    # The deciding quantity is the CPU time the child has consumed since the case started (/proc/<pid>/stat), which is
+    # independent of machine load; wall-clock limits (10x longer, and the shard deadline) only ever give 'inconclusive'.
     stuck_s = getattr(mod, "HANG_S", None) or 3 * getattr(mod, "CASE_TIMEOUT_S", 120) + 60
     pending = {sh: (m, p, out, errf) for sh, m, p, out, errf in procs}
     rcs = {}
+    cpu_mark = {}   # shard -> (case idx, cpu seconds of the child when the parent first saw that idx)
+    cpu_used = {}
     while pending:
         for sh in list(pending):
             m, p, out, errf = pending[sh]
             rc = p.poll()
             if rc is None:
                 prog = _progress(out + ".progress")
-                if time.time() > deadline or (prog is not None and prog["since_s"] > stuck_s):
+                if prog is not None:
+                    cpu = _proc_cpu_s(p.pid)
+                    if sh not in cpu_mark or cpu_mark[sh][0] != prog["idx"]:
+                        cpu_mark[sh] = (prog["idx"], cpu)
+                    used = (cpu - cpu_mark[sh][1]) if (cpu is not None and cpu_mark[sh][1] is not None) else 0.0
+                    cpu_used[sh] = used
+                    # idx -1 = warm-up (numba compiles the lazily typed kernels: measured < 200 CPU s): much larger budget
+                    if used > (stuck_s if prog["idx"] >= 0 else stuck_s + 900):
+                        p.kill(); p.wait()
+                        rc = "watchdog-cpu"
+                    elif prog["since_s"] > 10 * stuck_s:
+                        p.kill(); p.wait()
+                        rc = "watchdog"
+                if rc is None and time.time() > deadline:
                     p.kill(); p.wait()
                     rc = "watchdog"
             if rc is not None:
@@ -95,7 +112,8 @@ def run(prop, tier="quick", seed=0, replay=None, keep=False):
             with open(out) as fh:
                 results.append(json.load(fh))
         else:
-            proc_events.append({"shard": sh, "mode": m, "rc": rc, "progress": prog, "stderr": stderr_tail})
+            proc_events.append({"shard": sh, "mode": m, "rc": rc, "progress": prog, "stderr": stderr_tail,
+                                "cpu_s": cpu_used.get(sh)})
     verdict = _aggregate(mod, prop, tier, seed, thash, shard_modes, results, proc_events, warm_s, t0)
     if not keep:
         shutil.rmtree(tmp, ignore_errors=True)
@@ -115,6 +133,16 @@ def _tail(path, n=2500):
         return s[-n:]
     except OSError:
         return ""
+
+
+def _proc_cpu_s(pid):
+    """user+system CPU seconds consumed so far by process pid (None if unreadable)"""
+    try:
+        with open("/proc/%d/stat" % pid) as fh:
+            a = fh.read().rsplit(")", 1)[1].split()
+        return (int(a[11]) + int(a[12])) / float(os.sysconf("SC_CLK_TCK"))
+    except Exception:  # noqa: BLE001
+        return None
 
 
 def _progress(path):
@@ -171,14 +199,16 @@ def _aggregate(mod, prop, tier, seed, thash, shard_modes, results, proc_events, 
     inconclusive_reasons = []
     for ev in proc_events:
         rc = ev["rc"]
-        if rc == "watchdog":
+        if rc in ("watchdog", "watchdog-cpu"):
             prog = ev["progress"]
             hang_s = getattr(mod, "HANG_S", None)
-            if hang_s is not None and prog and prog["since_s"] >= hang_s:
+            if rc == "watchdog-cpu" and hang_s is not None and prog:
                 viols.append({"key": {"kind": "hang"}, "err": None, "idx": prog["idx"], "mode": ev["mode"],
-                              "msg": "case %d still running after %.0f s (shard watchdog)" % (prog["idx"], prog["since_s"])})
+                              "msg": "case %d still running after %.0f s of CPU time (%.0f s wall; shard watchdog)" % (
+                                  prog["idx"], ev.get("cpu_s") or -1, prog["since_s"])})
             else:
-                inconclusive_reasons.append("shard %d stopped by wall-clock watchdog (progress %s)" % (ev["shard"], prog))
+                inconclusive_reasons.append("shard %d stopped by %s watchdog (progress %s)" % (
+                    ev["shard"], "CPU-time" if rc == "watchdog-cpu" else "wall-clock", prog))
         elif isinstance(rc, int) and rc < 0:
             prog = ev["progress"] or {"idx": -1}
             try:
